@@ -515,6 +515,8 @@ pub fn build(family: &str, tier: Tier) -> Vec<Cfg> {
                 for alias_max in [0u16, 1, 2] {
                     for v311 in [false, true] {
                         if v311 && !(alias_max == 2) { continue; }
+                        // 3.1.1 never aliases whatever the resolver: the quick tier keeps two resolvers for it
+                        if v311 && !thorough && !matches!(resolver, ResolverKind::Lru(2) | ResolverKind::Manual) { continue; }
                         if !thorough && alias_max == 0 && resolver != ResolverKind::Lru(2) { continue; }
                         let mut c = Cfg::base("alias", &format!("{:?}-max{}-v{}", resolver, alias_max, if v311 { 311 } else { 5 }));
                         c.resolver = resolver; c.mqtt311 = v311;
